@@ -211,11 +211,19 @@ def ema_seed_and_alpha(F, R):
     if v is None:
         return
     m = model(F, v)
-    alpha_ok = False
-    for mm in m.ctor_models:
-        if mm['fn'].name == 'new' and mm['init']:
-            alpha_ok = any(t == lit(2.0) for c, t in mm['init'].items())
-    R.ob('B2-ema', 'Ema:alpha', alpha_ok, 'Ema::new uses alpha = 2, so w = 2/(N+1) ∈ (0, 1] for N >= 1' if alpha_ok else 'default alpha is not 2', v.file)
+    # default alpha = 2: the weight of the newest input in the value reported by Ema::new(N) is 2/(N+1) (read off the linear
+    # forms from the initial state, so it does not matter where or under which name the constant is stored)
+    from .lti import transient
+    alpha_ok = True
+    why = ''
+    for N in (1, 2, 5, 9):
+        ints = [nm for (pid, nm, ty) in [x for x in m.ctor_models if x['fn'].name == 'new'][0]['fn'].param_ids() if ty == 'usize']
+        outs, probs = transient(m, 'new', {ints[0]: N}, N + 3)
+        o = outs[-1] if outs else None
+        if not isinstance(o, dict) or abs(o.get('u%d' % (N + 2), 0.0) - 2.0 / (N + 1)) > 1e-12:
+            alpha_ok = False
+            why = 'Ema::new(%d): weight of the newest input is %s, expected 2/(N+1)' % (N, o.get('u%d' % (N + 2)) if isinstance(o, dict) else o)
+    R.ob('B2-ema', 'Ema:alpha', alpha_ok, 'Ema::new uses alpha = 2, so w = 2/(N+1) ∈ (0, 1] for N >= 1' if alpha_ok else why, v.file)
     seed_ok = False
     for cell, tt in m.up_fields.items():
         for x in subterms(tt):
@@ -257,15 +265,22 @@ def alma_params(F, R):
     for mm in m.ctor_models:
         if mm['init'] is None:
             continue
-        if not any(p[1] == 'offset' for p in mm['fn'].param_ids()):
+        fargs = [('arg', nm) for (pid, nm, ty) in mm['fn'].param_ids() if ty == 'T' and nm]
+        iargs = [('arg', nm) for (pid, nm, ty) in mm['fn'].param_ids() if ty == 'usize' and nm]
+        if len(fargs) < 2 or not iargs:
             continue
-        wl = op('from_int', ('arg', 'window_len'))
+        wl = op('from_int', iargs[0])
+        centre_arg = None
         for c, t in mm['init'].items():
-            if t in (op('mul', ('arg', 'offset'), op('add', wl, lit(1.0))), op('mul', op('add', wl, lit(1.0)), ('arg', 'offset')),
-                     op('mul', ('arg', 'offset'), op('add', lit(1.0), wl))):
-                ok_m = True
-            if t == op('div', wl, ('arg', 'sigma')):
-                ok_s = True
+            for a in fargs:
+                if t in (op('mul', a, op('add', wl, lit(1.0))), op('mul', op('add', wl, lit(1.0)), a), op('mul', a, op('add', lit(1.0), wl)),
+                         op('mul', op('add', lit(1.0), wl), a)):
+                    ok_m = True
+                    centre_arg = a
+        for c, t in mm['init'].items():
+            for a in fargs:
+                if a != centre_arg and t == op('div', wl, a):
+                    ok_s = True
     R.ob('B2-alma', 'Alma:centre', ok_m, 'centre = offset·(N+1)' if ok_m else 'centre is not offset·(N+1)', v.file)
     R.ob('B2-alma', 'Alma:width', ok_s, 'width = N/sigma' if ok_s else 'width is not N/sigma', v.file)
     # every weight pushed/added is exp(...) (positive)
@@ -276,10 +291,12 @@ def alma_params(F, R):
     for q, i in fl.queues.items():
         V = i['V']
         if V is not None and V[0] == 'op' and V[1] == 'exp':
-            qv = fl.m.up_fields.get('q_vals')
             lens = [x[2][0] for x in subterms(V) if x[0] == 'op' and x[1] == 'from_int' and x[2][0][0] == 'len']
             pushed_onto = None
-            if qv is not None:
+            for q2, i2 in fl.queues.items():
+                qv = fl.m.up_fields.get(q2)
+                if qv is None or i2['V'] is None or i2['V'][0] != 'child':
+                    continue
                 for x in subterms(qv):
                     if x[0] == 'push_back' and x[2][0] == 'child':
                         pushed_onto = x[1]
